@@ -12,7 +12,13 @@ class Prop:
     rule = ""
     assumptions = []
     impl_env = None
+    retry_env = None        # set for real-time (UDP) observations: suspicious cases are re-run with this env
+    parallel = 1
+    sandbox = None
     search_seconds = 60
+
+    def chunk_of(self, line):
+        return 0
 
     def corpus(self):
         """Directed / past-failure cases, run first."""
@@ -59,9 +65,26 @@ class Prop:
         return []
 
 
+def run_impl_for(prop, lines, workdir, env):
+    if prop.parallel > 1 and len(lines) > 1:
+        return core.run_impl_parallel(lines, workdir, env, prop.parallel, prop.chunk_of)
+    return core.run_impl(lines, workdir, env)
+
+
 def evaluate(prop, lines, res, workdir, record=True):
     model = core.run_model(lines, workdir)
-    impl = core.run_impl(lines, workdir, prop.impl_env)
+    impl = run_impl_for(prop, lines, workdir, prop.impl_env)
+    if prop.retry_env:
+        # real-time observations: anything that looks wrong is observed again with generous waits, sequentially
+        sus = [k for k, (l, m, i) in enumerate(zip(lines, model, impl)) if prop.oracle(l, i) is not None or not prop.compare(l, m, i)]
+        if sus:
+            env = dict(prop.impl_env or {})
+            env.update(prop.retry_env)
+            again = core.run_impl([lines[k] for k in sus], workdir, env)
+            for k, r in zip(sus, again):
+                impl[k] = r
+            if record:
+                res.count("retried-with-long-waits", len(sus))
     viol, dis = [], []
     for l, m, i in zip(lines, model, impl):
         if record:
@@ -83,7 +106,10 @@ def shrink_violation(prop, v, res, workdir, rounds=40):
         cands = [c for c in prop.shrink(line) if c != line][:200]
         if not cands:
             break
-        outs = core.run_impl(cands, workdir, prop.impl_env)
+        env = dict(prop.impl_env or {})
+        if prop.retry_env:
+            env.update(prop.retry_env)
+        outs = core.run_impl(cands, workdir, env)
         found = None
         for c, o in zip(cands, outs):
             r = prop.oracle(c, o)
@@ -104,6 +130,7 @@ def run_property(prop, tier, seed, replay=None):
     workdir = os.path.join(core.WORK, "%s-%d" % (prop.id, os.getpid()))
     shutil.rmtree(workdir, ignore_errors=True)
     os.makedirs(workdir)
+    prop.sandbox = os.path.join(workdir, "sb")
     exit_code = 0
     out_lines = []
     try:
@@ -143,7 +170,8 @@ def run_property(prop, tier, seed, replay=None):
         else:
             lines = prop.corpus()
             res.extra["corpus_cases"] = len(lines)
-            lines = lines + prop.generate(tier, rng)
+            if not os.environ.get("VERIF_ONLY_CORPUS"):
+                lines = lines + prop.generate(tier, rng)
         t1 = time.time()
         viol, dis = [], []
         CH = 20000
